@@ -110,7 +110,14 @@ fn crash_point(root: &Path, tag: &str, shim: &str, snap: u64, rot: u64, n: u64, 
     let mut acked = Census::new();
     let mut inflight: Option<Step> = None;
     match launch(&cfgp, free_port(), free_port(), &envs, &work) {
-        Launch::Refused { .. } => {} // died during start-up (or refused: judged by the restart below)
+        Launch::Refused { code, log_tail } => {
+            // died during start-up: there must be a kill note; a server that exits by itself on an
+            // empty directory means this slice's configuration is not accepted (vacuity guard)
+            if !note.exists() {
+                out.viol.push(("C01|server|machinery|first-start-refused-without-kill".into(), json!({"detail": format!("exit {code:?}: {log_tail}")})));
+                return out;
+            }
+        }
         Launch::Hung { log_tail } => {
             out.viol.push(("C01|server|machinery|first-start-hangs".into(), json!({"detail": log_tail})));
             return out;
@@ -259,7 +266,7 @@ pub fn run(tier: &str) -> i32 {
         eprintln!("C01S: machinery error: {shim} missing");
         return 2;
     }
-    let variants: Vec<(u64, u64)> = if tier == "thorough" { vec![(2, 300), (3, 1 << 20), (0, 200)] } else { vec![(2, 300)] };
+    let variants: Vec<(u64, u64)> = if tier == "thorough" { vec![(2, 300), (3, 1 << 20), (1000, 200)] } else { vec![(2, 300)] };
     let viol = Mutex::new(SigBag::default());
     let launches = AtomicU64::new(0);
     let points = AtomicU64::new(0);
